@@ -267,8 +267,54 @@ Example subrun_job_ultimate_hit :
 Proof. reflexivity. Qed.
 
 (** the restriction is what does it: were SINGLE in the literal set, the entry would be replayed *)
-Definition lax_subrun_opts : subrun_cfg := mkSC ScBACKEND CvSHALLOW [CSE; ULTIMATE; SINGLE] ScCSE ScNONE.
+Definition lax_subrun_opts : subrun_cfg := mkSC ScBACKEND CvSHALLOW [CSE; ULTIMATE; SINGLE] ScCSE ScNONE GuardNone ScCSE.
 Example lax_set_replays_single :
   fst (get_cache shipped_check_cache shipped_getcache (root_task_jobopts lax_subrun_opts call_default) ans_only_single)
   = GHit (CVal 7 true true) None SINGLE.
 Proof. reflexivity. Qed.
+
+(** ** cache=False: the subrun job is treated like every directly evaluated job *)
+(** what a directly evaluated job of an ordinary task (backend scope, no restriction) may use under cache=False: the
+    job-level override makes it CSE only *)
+Definition direct_jobopts (use_cache : bool) : jobopts :=
+  mkJO None (Some (if use_cache then ScBACKEND else ScCSE)) None false false.
+
+Lemma direct_cache_false_is_cse_only :
+  forall ans v h ct tr,
+    get_cache shipped_check_cache shipped_getcache (direct_jobopts false) ans = (GHit v h ct, tr) -> ct = CSE.
+Proof.
+  intros ans v h ct tr H.
+  unfold get_cache in H; simpl (negb _) in H; cbv iota in H.
+  destruct (gc_args shipped_getcache _) as [[scope cv] oal] eqn:EA.
+  destruct (run_cc _ scope cv oal ans) as [[r h0 ct0|] tr0] eqn:ER; [|inversion H].
+  inversion H; subst.
+  destruct (chain_hit_type _ _ _ _ _ _ H1) as [E1 [E2 E3]]; subst ct0 h0 r.
+  unfold gc_args, direct_jobopts in EA; simpl in EA. inversion EA; subst.
+  destruct (cc_scope_cse_only_cse _ _ _ _ _ _ _ ER) as [E|E]; subst ct; [reflexivity|].
+  simpl in H1. destruct v as [i va ha|i]; try destruct va; try destruct ha; simpl in H1; discriminate.
+Qed.
+
+(** with the unconditional override (as shipped) the same holds for the _subrun_root_task job, whatever
+    cache options the caller forwards: a run with cache=False never replays it from an earlier execution *)
+Theorem subrun_cache_false_is_cse_only :
+  forall k ans v h ct tr,
+    c_use_cache k = false ->
+    get_cache shipped_check_cache shipped_getcache (root_task_jobopts shipped_subrun_opts k) ans = (GHit v h ct, tr) ->
+    ct = CSE.
+Proof.
+  intros k ans v h ct tr U H.
+  destruct (subrun_no_single_reduction _ _ _ _ _ _ H) as [[E|E] _]; subst ct; [reflexivity|].
+  destruct (subrun_ultimate_only_when_shallow_backend _ _ _ _ _ H) as [_ [_ [_ [UC _]]]]. congruence.
+Qed.
+
+(** refuted for the guarded variant: the root task is defined with CSE scope, the guard skips the override, the
+    call-time BACKEND scope wins and an ultimate reduction of an earlier execution is replayed under cache=False *)
+Definition call_nocache : subrun_call := mkCall None None false true.
+Theorem guarded_downgrade_refuted :
+  exists k ans v h tr,
+    c_use_cache k = false /\
+    get_cache shipped_check_cache shipped_getcache (root_task_jobopts guarded_subrun_opts k) ans = (GHit v h ULTIMATE, tr).
+Proof.
+  exists call_nocache, ans_ult_single, (CVal 6 true true), (Some 2%Z), [QNode LkCSE; QNode LkULT; FCall LkULT].
+  split; reflexivity.
+Qed.
